@@ -149,7 +149,7 @@ def _perplexity_input_check(
     else:
         _target = target
 
-    if input.size(2) <= torch.max(_target):
+    if _target.numel() > 0 and input.size(2) <= torch.max(_target):
         raise ValueError(
             "Class labels in `target` tensor cannot be larger than vocab_size minus one, got "
             f"vocab size of {input.size(2)} and target label of {int(torch.max(_target))}."
